@@ -59,6 +59,17 @@ theorem periodConsistency_spec (periods : List Rat) (hn : 0 < periods.length) (h
                         (min (periods.getD (c + 1) 0) (periods.getD c 0) / max (periods.getD (c + 1) 0) (periods.getD c 0)))) := by
   exact BurstAux.periodConsistency_spec periods hn hpos
 
+theorem periodConsistency_dir_spec (periods : List Rat) (hn : 0 < periods.length) (hpos : ∀ p ∈ periods, 0 < p) :
+    periodConsistency .next periods =
+      .ok ((List.range periods.length).map fun c =>
+        if c = 0 ∨ c + 1 = periods.length then F.nan
+        else F.fin (min (periods.getD (c + 1) 0) (periods.getD c 0) / max (periods.getD (c + 1) 0) (periods.getD c 0))) ∧
+    periodConsistency .last periods =
+      .ok ((List.range periods.length).map fun c =>
+        if c = 0 ∨ c + 1 = periods.length then F.nan
+        else F.fin (min (periods.getD c 0) (periods.getD (c - 1) 0) / max (periods.getD c 0) (periods.getD (c - 1) 0))) := by
+  exact BurstAux.periodConsistency_dir_spec periods hn hpos
+
 theorem ratio_pos_range (a b : Rat) (ha : 0 < a) (hb : 0 < b) : 0 < min a b / max a b ∧ min a b / max a b ≤ 1 := by
   exact BurstAux.ratio_pos_range a b ha hb
 
